@@ -185,7 +185,43 @@ def rule_grid(r):
                 "acceptance q = 2 pi sin(theta_max) / lambda_max")
 
 
+def rule_fresh(r):
+    """The transform arrays are computed from the constructor arguments on every construction: sesans.py keeps no
+    module-level mutable state that an evaluation reads or writes (shared with C11 R-C11-globals)."""
+    mod = pf.lib("sesans")
+    module_names = {}
+    for st in mod.tree.body:
+        if isinstance(st, (ast.Assign, ast.AnnAssign)):
+            tg = st.targets if isinstance(st, ast.Assign) else [st.target]
+            for t in tg:
+                if isinstance(t, ast.Name) and st.value is not None and isinstance(st.value, (ast.Dict, ast.List, ast.Set, ast.Call)):
+                    if isinstance(st.value, ast.Call) and (pf.call_name(st.value) or "") not in ("dict", "list", "set", "OrderedDict", "collections.OrderedDict", "defaultdict"):
+                        continue
+                    module_names[t.id] = st
+    n = 0
+    for qual, fn in sorted(mod.functions.items()):
+        if not qual.startswith("SesansTransform."):
+            continue
+        local = set(pf.params(fn))
+        for st in pf.walk_stmts(fn):
+            local |= pf.assigned_names(st)
+        for st in pf.walk_stmts(fn):
+            for node in pf.own_exprs(st):
+                if isinstance(node, ast.Name) and node.id in module_names and node.id not in local:
+                    n += 1
+                    r.violation(F, qual, "module-level container %s used in `%s`" % (node.id, pf.unparse(st)[:60]), st.lineno,
+                                "a transform taken from or stored in module state depends on what was constructed before; "
+                                "unless the key covers every argument, another data set's matrix is returned")
+        r.ok(F, qual, "no module-level container consulted", fn.lineno)
+    # H, H0, q_calc stored on self are the locals computed in this call
+    sh = mod.func("SesansTransform._set_hankel")
+    rets = [s_ for s_ in pf.walk_stmts(sh) if isinstance(s_, ast.Return)]
+    r.check(not rets, F, "SesansTransform._set_hankel", "single exit at the end (no early return with other arrays)", sh.lineno,
+            "%d early returns" % len(rets))
+
+
 RULES = [
+    ("R-C19-fresh", 4, "transform built afresh from its arguments", rule_fresh),
     ("R-C19-linear", 2, "apply is linear and equals H.I - H0.I", rule_linear),
     ("R-C19-weights", 5, "H and H0 share the weight vector q dq / 2 pi", rule_weights),
     ("R-C19-grid", 10, "grid, mask polarity, background and construction", rule_grid),
